@@ -59,26 +59,29 @@ def closed_window(ctx, R, rule='C18.X'):
                  'UNKNOWN' if any("b'UNKNOWN' ==" in T.short(a) and a[0] == 'eq' for a in o['pc']) else '-'
             if kw == '-':
                 kw = 'after-PROXY' if any(a[0] == 'eq' and "b'PROXY' ==" in T.short(a) for a in o['pc']) else 'first-token'
-            # token-presence signature of the path: which tokens were seen, which were found absent / empty (keeps different ways of
-            # reaching the same verdict apart, without line numbers)
-            has_, no_, empty_ = set(), set(), set()
+            # class of the finding: verdict, protocol keyword and the exact number of tokens in the window -- a semantic signature (decided
+            # by the solver, not read off the path's syntax), so the same defect keeps its key when the parser is restructured
+            src = None
             for a in o['pc']:
-                neg = a[0] == 'not'
-                b = a[1] if neg else a
-                if b[0] == 'call' and b[1] == 'has_tok':
-                    k = b[2][1]
-                    (no_ if neg else has_).add(str(k[1]) if k[0] == 'int' else 'mu')
-                if b[0] == 'eq0' and not neg:
-                    c0, m = T.to_lin(b[1])
-                    if c0 == 0 and len(m) == 1:
-                        (x, _), = m.items()
-                        if x[0] == 'len' and x[1][0] == 'call' and x[1][1] == 'tok':
-                            k = x[1][2][1]
-                            empty_.add(str(k[1]) if k[0] == 'int' else 'mu')
-            sig = 'seen[%s]absent[%s]empty[%s]' % (','.join(sorted(has_)), ','.join(sorted(no_)), ','.join(sorted(empty_)))
-            key = '%s/%s/%s/%s' % (which, e[2], kw, sig)
-            if solver.sat(list(o['pc']) + closed):
-                seen.setdefault(key, o)
+                for t in T.subterms(a):
+                    if t[0] == 'call' and t[1] == 'split' and t[2][1][0] == 'int':
+                        src = t
+                        break
+                if src is not None:
+                    break
+            if src is None:
+                if solver.sat(list(o['pc']) + closed):
+                    seen.setdefault('%s/%s/%s/tokens=-' % (which, e[2], kw), o)
+                continue
+            limit = src[2][1][1]
+            for n in range(1, limit + 1):
+                exact = []
+                if n > 1:
+                    exact.append(('call', 'has_tok', (src, I(n - 1))))
+                if n < limit:
+                    exact.append(T.bnot(('call', 'has_tok', (src, I(n)))))
+                if solver.sat(list(o['pc']) + closed + exact):
+                    seen.setdefault('%s/%s/%s/tokens=%d' % (which, e[2], kw, n), o)
         for key, o in sorted(seen.items()):
             R.inst(rule, 'incomplete-verdict-on-closed-window/' + key, False, expected='a complete verdict once the first CR is followed by a byte',
                    found='%s is reachable with the window closed, under: %s' % (T.short(o['ret']), pc_text([a for a in o['pc']][-8:], 8)), entry='v1::Header::try_from(%s)' % ('&str' if which == 'str' else '&[u8]'),
